@@ -187,6 +187,15 @@ impl Machine for HcMachine {
                 String::from("ok")
             }
             "step" => { ep.hc.step(); String::from("ok") }
+            // `stepn <n>`: n consecutive step() calls at the current instant (implementation-only streams: the
+            // model driver does not interpret it)
+            "stepn" => {
+                let n: u64 = match t.num() { Some(n) => n, None => return bad() };
+                for _ in 0..n {
+                    ep.hc.step();
+                }
+                String::from("ok")
+            }
             "flush" => {
                 let mut frames = Vec::new();
                 ep.hc.flush(&mut VecFrameSink { out: &mut frames });
